@@ -23,6 +23,7 @@ type KnownFinding struct {
 	Harness  string `json:"harness"`
 	Label    string `json:"label"`
 	Where    string `json:"where,omitempty"`
+	Msg      string `json:"msg_contains,omitempty"` // for deadlock/panic findings: substring of the report
 	What     string `json:"what"`
 	Status   string `json:"status"` // "known" | "fixed"
 	Commit   string `json:"commit,omitempty"`
